@@ -205,6 +205,34 @@ pub fn run_histories(cfg: &Cfg, prop: Prop) -> i32 {
                 }
             }
             managed = next;
+            // a few histories per run carry one very large policy (a transit customer's cone) that
+            // loses thousands of ranges in one run and keeps thousands: behaviour must not depend
+            // on how big an update is
+            if prop != Prop::C03 && idx % 400 == 3 && !escaping_class {
+                let big_name = pool[0].to_string();
+                let base: u128 = 0x0A00_0000;
+                match step {
+                    0 => {
+                        let total = 9_000 + r.below(4_000);
+                        let v4: BTreeSet<Range> = (0..total as u128).map(|k| (4u8, base + (k << 8), 24u8, 24u8, 24u8)).collect();
+                        let v6: BTreeSet<Range> = (0..40u128).map(|k| (6u8, (0x2001_0db8u128 << 96) + (k << 80), 48u8, 48u8, 48u8)).collect();
+                        managed = vec![Managed { name: big_name.clone(), expr: "AS65000".into(), annotation_ok: true, result: Some((v4, v6)) }];
+                        labels = vec![format!("{big_name}:large({total} ranges)")];
+                    }
+                    1 => {
+                        if let Some(m) = managed.iter_mut().find(|m| m.name == big_name) {
+                            if let Some((v4, _)) = m.result.as_mut() {
+                                let drop_n = *r.pick(&[4_095usize, 4_096, 4_097, 5_000, 8_000]);
+                                let keep: BTreeSet<Range> = v4.iter().skip(drop_n).copied().collect();
+                                labels.push(format!("{big_name}:withdraws-{drop_n}-of-{}", v4.len()));
+                                *v4 = keep;
+                                rep.count("runs_withdrawing_thousands_of_ranges_at_once");
+                            }
+                        }
+                    }
+                    _ => {}
+                }
+            }
             let running = render_running(&managed, &mut r);
             let results: BTreeMap<String, Option<Sets>> = managed.iter().filter(|m| m.annotation_ok).map(|m| (m.expr.clone(), m.result.clone())).collect();
             // ---- C02 ranges over all installed states, not only those the agent wrote: now and
